@@ -231,6 +231,8 @@ static int sim_hook_body(const SutView* v, SutAction* out) {
 	e.has_pending = v->has_pending; e.has_current = v->has_current; e.has_previous = v->has_previous;
 	memcpy(e.active, v->active, 32); e.active_tmpl_ok = v->active_tmpl_ok;
 	e.machine_active = sut_active_id(W.cur->inst);
+	e.machine_is_active = sut_is_active(W.cur->inst);
+	e.active_invalid = v->active_invalid; e.machine_active_invalid = static_cast<uint8_t>(sut_is_active_id(W.cur->inst, SUT_INVALID));
 	plan_from_sut(e.plan, v->plan); e.plan_m_same = v->plan_m_same;
 	e.last_kind = v->last_kind; e.last_result = v->last_result;
 	if (v->walk_count) e.walk.assign(v->walk, v->walk + (v->walk_count > SUT_MAX_TASKS ? SUT_MAX_TASKS : v->walk_count));
